@@ -173,6 +173,27 @@ package car
 //@   ensures skipped_block_is_there [C02]: err == nil ==> pos(br.r) <= lim(br.r) || pos(br.r) <= sbase(br.r) + send(br.r)
 
 //@ func LoadIndex
+//@   let v1h, v1herr := call[carv1.ReadHeader#1]
+//@   let _, v2herr := call[Header.ReadFrom#0]
+//@   let loaderr := call[Index.Load#0]
+//@   let cidLen0, c0, cerr0 := call[cid.CidFromReader#0]
+//@   call[fmt.Errorf#0] assert refuses_only_an_unreadable_header [C03,C09]: perr != nil
+//@   call[fmt.Errorf#2] assert refuses_only_a_payload_inside_the_v2_header [C03,C09]: v2herr == nil && cur(v2h).DataOffset < 40
+//@   call[fmt.Errorf#3] assert refuses_only_an_empty_payload [C03,C09]: v2herr == nil && cur(v2h).DataSize < 1
+//@   call[fmt.Errorf#4] assert refuses_only_an_inner_header_that_is_not_version_1 [C03]: v1herr == nil && v1h.Version != 1
+//@   call[fmt.Errorf#1] assert refuses_only_an_unknown_version [C03,C09]: pragma.Version != 1 && pragma.Version != 2
+//@   call[fmt.Errorf#5] assert refuses_only_a_zero_length_section_it_was_not_told_to_accept [C03]: verr == nil && sectionLen == 0 && !o.ZeroLengthSectionAsEOF
+//@   call[Seeker.Seek#1] assert to_the_start_of_the_payload [C03]: arg1 == wrap_s64(cur(v2h).DataOffset) && arg2 == 0
+//@   call[Seeker.Seek#0] assert asks_for_the_current_position [C03]: arg1 == 0 && arg2 == 1
+//@   call[Seeker.Seek#2] assert skips_exactly_the_block_bytes [C03]: arg1 == wrap_s64(wrap_s64(sectionLen) - cidLen0) && arg2 == 1 && cerr0 == nil
+//@   loop[0] invariant payload_window_of_the_v2_header [C03]: (pragma.Version == 1 ==> dataOffset == 0 && dataSize == 0) && (pragma.Version == 2 ==> dataOffset == wrap_s64(cur(v2h).DataOffset) && dataSize == wrap_s64(cur(v2h).DataSize))
+//@   loop[0] step continues_only_inside_the_payload [C03]: dataSize == 0 || sectionOffset < dataSize
+//@   loop[0] step continues_only_after_a_real_section [C03]: verr == nil && sectionLen != 0
+//@   ghost before call[carv1.ReadHeader#0]: mark(idx) := 0
+//@   ghost after call[cid.CidFromReader#0]: mark(idx) := mark(idx) + 1
+//@   loop[0] invariant no_record_without_a_section [C03]: len(records) <= mark(idx)
+//@   check a_length_error_is_reported [C02,C03]: executed("varint.ReadUvarint#0") && verr != nil && verr != io.EOF ==> err == verr
+//@   check the_outcome_of_a_complete_scan_is_that_of_loading_the_records [C03,C11]: executed("Index.Load#0") ==> err == loaderr
 //@   call[carv1.ReadHeader#0] assert configured_header_limit [C09]: arg1 == o.MaxAllowedHeaderSize
 //@   call[carv1.ReadHeader#1] assert configured_header_limit [C09]: arg1 == o.MaxAllowedHeaderSize
 //@   requires origin [C03]: pos(r) == sbase(r)
@@ -274,6 +295,9 @@ package car
 //@   check version_header [C13]: err == nil ==> result0.Version == r.Version && result0.Header == r.Header
 
 //@ func (*traversalCar).WriteV2Header
+//@   call[Header.WriteTo#0] assert index_offset_accounts_for_both_paddings [C05,C15]: tc.opts.IndexCodec != 3145728 ==> arg0.IndexOffset == wrap_u64(wrap_u64(wrap_u64(51 + tc.size) + tc.opts.DataPadding) + tc.opts.IndexPadding)
+//@   call[Header.WriteTo#0] assert after_the_pragma_into_the_same_writer [C05,C15]: ref(arg1) == ref(w) && e0 == nil
+//@   call[Writer.Write#0] assert pragma_first [C05,C15]: ref(arg0) == ref(w) && len(arg1) == 11 && wn(w) == old(wn(w))
 //@   modifies wn(w)
 //@   alloc[0] bounded_by tc.opts.DataPadding
 //@   call[Header.WriteTo#0] assert header [C05,C15]: arg0.DataSize == tc.size && arg0.DataOffset == wrap_u64(51 + tc.opts.DataPadding) && (tc.opts.IndexCodec == 3145728 ==> arg0.IndexOffset == 0)
@@ -284,6 +308,9 @@ package car
 //@   ensures never_impossible [C15]: tc.opts.DataPadding < 4611686018427387904 && e0 != ErrOffsetImpossible && e1 != ErrOffsetImpossible && e2 != ErrOffsetImpossible ==> err != ErrOffsetImpossible
 
 //@ func (*traversalCar).WriteV1
+//@   let widx, werr := call[IndexTracker.Index#0]
+//@   ensures first_pass_learns_the_size [C15]: whe == nil && hse == nil && terr == nil && old(tc.size) == 0 ==> (err != ErrSizeMismatch || err == werr) && tc.size == sz
+//@   ensures index_iff_requested [C15]: err == nil ==> (tc.opts.IndexCodec == 3145728 ==> result1 == nil) && (tc.opts.IndexCodec != 3145728 ==> ref(result1) == ref(widx) && werr == nil)
 //@   let trk, _ := call[loader.TeeingLinkSystem#0]
 //@   let sz := call[ReadCounter.Size#0]
 //@   call[loader.TeeingLinkSystem#0] assert starts_after_header [C15]: ref(arg1) == ref(w) && arg3 == tc.opts.IndexCodec
@@ -309,6 +336,7 @@ package car
 //@   call[Writer.Write#0] assert padding_is_zeros_of_configured_length [C15]: len(arg1) == tc.opts.IndexPadding && ref(arg0) == ref(w)
 
 //@ func TraverseToFile
+//@   call[traversalCar.WriteTo#0] assert first_pass_starts_with_an_unknown_size [C15]: arg0.size == 0
 //@   let wn0, werr := call[traversalCar.WriteTo#0]
 //@   call[traversalCar.WriteV2Header#0] assert second_header_after_rewind [C15]: werr == nil
 //@   call[File.Seek#0] assert rewind [C15]: arg1 == 0 && arg2 == 0
